@@ -49,6 +49,86 @@ theorem poll_handles_all_events (ops : Ops W) {s : St W} (h : Reachable ops s) (
   · exact Or.inl h1
   · exact Or.inr ⟨s', r, h1, h3, h2⟩
 
+/-! ## queued outcomes are delivered by the next poll; a cancel never alters a produced outcome -/
+
+/-- An outcome that is already queued in the driver (thread-pool result, ECANCELED entry of a cancelled
+    operation) makes the wait of the next `poll` non-blocking, whatever timeout the caller asked for —
+    `has_completed` is read before the wait.  (The cancel path queues its entry WITHOUT waking the poller,
+    so this is what keeps `poll(None)` from blocking on an outcome the driver already holds.) -/
+theorem queued_outcome_forces_nonblocking_wait (s : St W) (notified : Bool) (timeout : Option Nat)
+    (h : s.chan ≠ []) : waitTimeout s notified timeout = some 0 := by
+  unfold waitTimeout
+  cases hc : s.chan with
+  | nil => exact (h hc).elim
+  | cons a l => simp
+
+/-- …and that `poll` hands every queued outcome to `set_result`: afterwards the channel is empty and every
+    result produced so far is in its slot or delivered. -/
+theorem poll_delivers_every_queued_outcome (ops : Ops W) {s s' : St W} {r : PollRes} (h : Reachable ops s)
+    (t : Bool) (fired : List Fired) (hp : poll ops s t fired = .ok (s', r)) :
+    s'.chan = [] ∧ ∀ id res, s'.keys.src id = [res] → s'.keys.slot id = .ready res ∨ s'.keys.dlv id = [res] := by
+  have hinv := reachable_inv h
+  have hc := poll_chan_nil ops hinv t fired hp
+  refine ⟨hc, ?_⟩
+  rcases inv_poll ops hinv t fired with ⟨m, hm⟩ | ⟨s2, r2, h2, hinv2, _⟩
+  · rw [hm] at hp; cases hp
+  · rw [h2] at hp
+    cases hp
+    intro id res hsrc
+    exact hinv2.k.finished_is_delivered (by rw [hc]; rfl) hsrc
+
+/-- A cancellation is only a request: once the OS / the driver has produced the outcome of an operation
+    (`src id ≠ []`: its `operate` succeeded, its job finished, its ECANCELED entry exists), `cancel_token`
+    changes neither the slots nor the histories nor the channel — it can only set the `cancelled` mark.
+    The result slot is written once, by the completion. -/
+theorem cancel_does_not_alter_a_produced_outcome (ops : Ops W) {s : St W} (h : Reachable ops s) (id : Id)
+    (hdone : s.keys.src id ≠ []) :
+    (cancelToken s id).1.keys = s.keys ∧ (cancelToken s id).1.chan = s.chan := by
+  have hinv := reachable_inv h
+  unfold cancelToken
+  cases hs : s.keys.slot id with
+  | free => exact ⟨rfl, rfl⟩
+  | ready r => simp [Slot.isReady]
+  | pending w =>
+    simp only [Slot.isReady, Bool.or_false]
+    cases hc : s.cancelled id with
+    | true => simp
+    | false =>
+      simp only [Bool.false_eq_true, if_false]
+      unfold driverCancel
+      cases ht : s.track id with
+      | nil => simp
+      | cons t ts =>
+        -- a pending, not cancelled operation that waits for a descriptor is queued, hence has no outcome yet
+        have hq := hinv.q.live id ⟨w, hs⟩ (by rw [ht]; simp) hc
+        exact (hdone (hinv.k.qFresh id hq).1).elim
+
+/-- the same for `Proactor::cancel(key)`: a produced and stored outcome is handed out, never replaced -/
+theorem cancel_key_returns_the_stored_outcome (s : St W) (id : Id) (r : Res)
+    (hs : s.keys.slot id = .ready r) (hc : s.cancelled id = false) :
+    (cancelDrop s id).2 = some r := by
+  unfold cancelDrop
+  simp only [hc, Bool.false_eq_true, if_false]
+  rw [pop_ready _ _ _ (by simpa using hs)]
+
+/-- io_uring: `Driver::cancel` only stages an `AsyncCancel` SQE (or drops it when the queue is full); it
+    touches no slot, no history and no queued completion … -/
+theorem iour_cancel_only_requests (r : Ring) (id : Id) :
+    (r.cancel id).keys = r.keys ∧ (r.cancel id).cq = r.cq ∧ (r.cancel id).chan = r.chan := by
+  unfold Ring.cancel
+  split <;> exact ⟨rfl, rfl, rfl⟩
+
+/-- … and a final CQE is stored verbatim: whatever was requested in the meantime, the submitter gets the
+    result the kernel reported for that operation (bytes moved ⇒ `Ok(n)`), the slot being written once. -/
+theorem iour_completion_stored_verbatim (r : Ring) (id : Id) (res : Res) (w : Option WakerId)
+    (hs : r.keys.slot id = .pending w) :
+    (r.handleCqe ⟨.key id, res, false⟩).keys.slot id = .ready res ∧
+    ((r.cancel id).handleCqe ⟨.key id, res, false⟩).keys.slot id = .ready res := by
+  have e := (iour_cancel_only_requests r id).1
+  constructor
+  · simp [Ring.handleCqe, (notify_pending r.keys id res w hs).1]
+  · simp [Ring.handleCqe, e, (notify_pending r.keys id res w hs).1]
+
 /-! ## (a) own result -/
 
 /-- The value `Proactor::pop(k)` returns is the one and only result produced for `k`
@@ -230,7 +310,7 @@ theorem head_runs_at_next_poll (ops : Ops W) {s : St W} (h : Reachable ops s) (t
     obtain ⟨_, ev2, he2, _, _⟩ := (hinv2.q.armed fd).reg_some hr2
     obtain ⟨s3, hs3, e1, e2, e3, e4, _⟩ := pollOne_ready ops s2 ⟨q.event.key, rd, wr⟩ fd q q' ev2 id d r w'
       hr2 he2 hpop (by rw [htrack]; exact htr) (by rw [hworld]; exact hop)
-    obtain ⟨s3', hs3', hinv3, _⟩ := inv_pollOne ops hinv2 fd q ⟨q.event.key, rd, wr⟩ hr2
+    obtain ⟨s3', hs3', hinv3, _, _⟩ := inv_pollOne ops hinv2 fd q ⟨q.event.key, rd, wr⟩ hr2
     rw [hs3] at hs3'
     simp only [Except.ok.injEq, Prod.mk.injEq, and_true] at hs3'
     subst hs3'
@@ -331,7 +411,7 @@ theorem pending_operate_requeues_unready (ops : Ops W) {s : St W} (h : Reachable
     obtain ⟨_, ev2, he2, _, _⟩ := (hinv2.q.armed fd).reg_some hr2
     obtain ⟨s3, hs3, e1, e2, e3, e4, _⟩ := pollOne_pending ops s2 ⟨q.event.key, rd, wr⟩ fd q q' ev2 id d w'
       hr2 he2 hpop hqeq (by rw [htrack]; exact htr) (by rw [hworld]; exact hop)
-    obtain ⟨s3', hs3', hinv3, _⟩ := inv_pollOne ops hinv2 fd q ⟨q.event.key, rd, wr⟩ hr2
+    obtain ⟨s3', hs3', hinv3, _, _⟩ := inv_pollOne ops hinv2 fd q ⟨q.event.key, rd, wr⟩ hr2
     rw [hs3] at hs3'
     simp only [Except.ok.injEq, Prod.mk.injEq, and_true] at hs3'
     subst hs3'
